@@ -48,8 +48,8 @@ SAMPLERS = ["burnin", "pg", "subtree", "dp", "prg", "iteration", "retained"]
 
 def cases(tier, rnd):
     q = tier == "quick"
-    out = sh.hist_descs(tier, rnd, 700 if q else 3000, 250 if q else 1000, long_every=6)
-    for i in range(420 if q else 2400):
+    out = sh.hist_descs(tier, rnd, 1300 if q else 3000, 450 if q else 1000, long_every=6)
+    for i in range(840 if q else 2400):
         out.append({"kind": "sampler", "seed": rnd.randrange(1 << 40), "sampler": SAMPLERS[i % len(SAMPLERS)],
                     "proposal": ["bootstrap", "semi-adapted", "fully-adapted"][(i // len(SAMPLERS)) % 3],
                     "outliers": (i // 21) % 2 == 0, "setup": (i // 42) % 2 == 0, "deep": i % 5 == 0,
